@@ -20,7 +20,8 @@
 # reflect the position or policy of the Government and no official
 # endorsement should be inferred.
 
-from typing import Dict, Iterable
+import uuid
+from typing import Dict, Iterable, Optional
 
 import gtirb
 from gtirb_capstone.capstone_compatibility import capstone
@@ -30,6 +31,7 @@ from gtirb_rewriting._modify.edges import update_edge
 
 from .. import _auxdata
 from ..abi import ABI, _SymExprAttributeRule
+from ..utils import _block_fallthrough_targets, _is_return_edge
 from .edit import AmbiguousIRError
 
 
@@ -153,6 +155,98 @@ def _retarget_out_edges(
                 )
 
             update_edge(edge, module.ir.cfg, target=retarget.referent)
+
+            if edge.label.type == gtirb.EdgeType.Call and isinstance(
+                block, gtirb.CodeBlock
+            ):
+                _move_return_edges(
+                    module, block, edge.target, retarget.referent
+                )
+
+
+def _function_of_block(
+    module: gtirb.Module, block: gtirb.CfgNode
+) -> Optional[uuid.UUID]:
+    function_blocks = _auxdata.function_blocks.get(module)
+    if not function_blocks or not isinstance(block, gtirb.CodeBlock):
+        return None
+
+    for func_uuid, blocks in function_blocks.items():
+        if block in blocks:
+            return func_uuid
+    return None
+
+
+def _move_return_edges(
+    module: gtirb.Module,
+    call_block: gtirb.CodeBlock,
+    old_target: gtirb.CfgNode,
+    new_target: gtirb.CfgNode,
+) -> None:
+    """
+    Updates return edges after a call edge has been moved from one callee to
+    another: the old callee no longer returns to the call's return site and
+    the new callee does.
+    """
+    assert module.ir
+    cfg = module.ir.cfg
+
+    return_sites = _block_fallthrough_targets(call_block)
+    if not return_sites:
+        return
+
+    old_func = _function_of_block(module, old_target)
+    new_func = _function_of_block(module, new_target)
+    if old_func == new_func:
+        return
+
+    function_blocks = _auxdata.function_blocks.get(module)
+    assert function_blocks is not None
+
+    if old_func:
+        for block in function_blocks[old_func]:
+            return_edges = [
+                edge for edge in block.outgoing_edges if _is_return_edge(edge)
+            ]
+            if not return_edges:
+                continue
+
+            remaining_edges = False
+            for edge in return_edges:
+                if edge.target in return_sites:
+                    cfg.discard(edge)
+                else:
+                    remaining_edges = True
+
+            if not remaining_edges:
+                cfg.add(
+                    gtirb.Edge(
+                        source=block,
+                        target=gtirb.ProxyBlock(module=module),
+                        label=gtirb.Edge.Label(type=gtirb.Edge.Type.Return),
+                    )
+                )
+
+    if new_func:
+        for block in function_blocks[new_func]:
+            return_edges = [
+                edge for edge in block.outgoing_edges if _is_return_edge(edge)
+            ]
+            if not return_edges:
+                continue
+
+            for edge in return_edges:
+                if isinstance(edge.target, gtirb.ProxyBlock):
+                    cfg.discard(edge)
+
+            for return_site in return_sites:
+                cfg.add(
+                    gtirb.Edge(
+                        source=block,
+                        target=return_site,
+                        label=gtirb.Edge.Label(type=gtirb.Edge.Type.Return),
+                    )
+                )
 
 
 def _retarget_sym_expr(
